@@ -5,6 +5,7 @@ import (
 	"github.com/brutella/hc/crypto"
 	"github.com/brutella/hc/log"
 	"net"
+	"sync"
 	"time"
 
 	"bufio"
@@ -29,6 +30,10 @@ type Connection struct {
 	// Buffers the encrypted bytes read from connection; bytes read ahead must
 	// survive until the next DecryptedRead
 	bufferedReader *bufio.Reader
+
+	// Serialises encrypted writes: frames must reach the socket in the
+	// order in which their counters were taken
+	writeMutex sync.Mutex
 }
 
 // NewConnection returns a hap connection.
@@ -48,6 +53,9 @@ func NewConnection(connection net.Conn, context Context) *Connection {
 // EncryptedWrite encrypts and writes bytes to the connection.
 // The method returns the number of written bytes and an error when writing failed.
 func (con *Connection) EncryptedWrite(b []byte) (int, error) {
+	con.writeMutex.Lock()
+	defer con.writeMutex.Unlock()
+
 	var buffer bytes.Buffer
 	buffer.Write(b)
 	encrypted, err := con.getEncrypter().Encrypt(&buffer)
